@@ -95,6 +95,9 @@ func (a *Application) providerProxyHandler(w http.ResponseWriter, r *http.Reques
 	}
 
 	if len(endpoints) == 0 {
+		if a.writeRoutingRejection(w, pr) {
+			return
+		}
 		http.Error(w, fmt.Sprintf("No %s endpoints available", providerType), http.StatusNotFound)
 		return
 	}
